@@ -49,11 +49,34 @@ def check(tier, seed):
             if kind == 'reset':
                 pre = [rng.randrange(256) for _ in range(rng.randrange(0, 40))]
                 ops = pre + ['r'] + body
-            a, b, ck = impl_hist(ops)
-            good = ck.matches(a, b)
+            # a second live object is created and driven in between (objects must not share state)
+            other = Checksum()
+            a, b, ck = impl_hist(ops[:len(ops) // 2])
+            other.add(rng.randrange(256))
+            other.add(rng.randrange(256))
+            for o in ops[len(ops) // 2:]:
+                if o == 'r':
+                    ck.reset()
+                else:
+                    ck.add(o)
+                if rng.random() < 0.2:
+                    other.add(rng.randrange(256))
+                if rng.random() < 0.05:
+                    Checksum()
+            a, b = ck.value()
             bad1 = ck.matches((a + 1) & 255, b)
             bad2 = ck.matches(a, (b + 1) & 255)
+            good = ck.matches(a, b) and ck.matches(a, b)          # observing twice must not disturb anything
+            if ck.value() != (a, b):
+                good = False
             impl = f'{a} {b}'
+            # ... and the object keeps absorbing bytes after matches(): continue the same history
+            tail = [rng.randrange(256) for _ in range(rng.randrange(1, 4))]
+            for o in tail:
+                ck.add(o)
+            ta, tb = ck.value()
+            cases.append(Case('checksum-after-matches', 'ck ' + C.hexs(bytes(body + tail)), f'{ta} {tb}',
+                              {'ops': ops[:64], 'then_matches_then': tail}, nontrivial=False, kind=kind + '-cont'))
             cases.append(Case('checksum-history', 'ck ' + C.hexs(body), impl, {'ops': ops[:64], 'n': len(ops)},
                               nontrivial=len(body) >= 2, kind=kind))
             cases.append(Case('checksum-spec', 'fletcher ' + C.hexs(body), impl, {'ops': ops[:64], 'n': len(ops)},
